@@ -171,6 +171,21 @@ def _conversion(src, fn, sig, stmt_re, skeleton, bits, what, swap=False, loose=N
         return "@E@"
     marked = re.sub(stmt_re, repl, body)
     if not found:
+        # no effect STATEMENT: the (effect, target) pairs may be the entries of a private module-level table
+        # `const NAME: [(anstyle::Effects, <fn pointer>); n] = [(anstyle::Effects::X, <path>::<target>), ..];` that the body
+        # names (the function translator reads the same entries: tools/rs2v/emit.py source_table / fn_value, and what the
+        # body does with them is its translation, proved against this very list in Proofs/AdaptersGen.v)
+        for tm in re.finditer(r"(?<![\w(])const(\w+):\[[^;]*;\d+\]=\[(.*?)\];", _squash(src)):
+            if not re.search(r"\b%s\b" % re.escape(tm.group(1)), body):
+                continue
+            ents = re.findall(r"\(anstyle::Effects::(\w+),(?:\w+::)+(\w+),?\)", tm.group(2))
+            if not ents or len(ents) != tm.group(2).count("anstyle::Effects::") or found:
+                raise GenError("%s: the entries of the table %s are not (anstyle::Effects::X, <path>::<target>) pairs" % (what, tm.group(1)))
+            found.extend(ents)
+        if found and not taken_over:
+            _fn_takes_over("%s: the effects of %s are applied from a table" % (what, fn))
+            taken_over = True
+    if not found:
         raise GenError("%s: no effect statement recognised" % what)
     marked = re.sub(r"(?:@E@)+", "@EFFECTS@", marked)
     m = re.fullmatch(_skeleton_re(skeleton), marked) if marked.count("@EFFECTS@") == 1 else None
